@@ -114,6 +114,9 @@ def _(self: "Generator") -> "Any":
 @contract("src.generators.generator.Generator.gen_field_access")
 def _(self: "Generator", etype: "Any", only_leaves: "Any", subtype: "Any") -> "Any":
     use_profile("ranges")
+    # _get_matching_objects returns a list (assumed: the declared type of the local); an empty one gets one entry appended,
+    # and the unfiltered comprehension keeps the length
+    local(objs="Seq[Any]")
     site_call("random.choice", "non-empty", truthy(arg0))
     site_call("random.integer", "non-empty-range", arg0 <= arg1)
     site_call("random.sample", "sample-size", 0 <= kw_k and kw_k <= len(arg0))
@@ -240,14 +243,6 @@ def _(contain_fields: "Any") -> "Any":
 
 load_module("src.ir.type_utils")
 
-@contract("src.ir.type_utils.get_irrelevant_parameterized_type")
-def _(etype: "Any", types: "Any", type_args_map: "Any", factory: "Any") -> "Any":
-    use_profile("ranges")
-    site_call("random.choice", "non-empty", truthy(arg0))
-    site_call("random.integer", "non-empty-range", arg0 <= arg1)
-    site_call("random.sample", "sample-size", 0 <= kw_k and kw_k <= len(arg0))
-
-
 @contract("src.ir.type_utils.find_irrelevant_type")
 def _(etype: "Any", types: "Any", factory: "Any") -> "Any":
     use_profile("ranges")
@@ -267,3 +262,14 @@ def _(self: "TypeOverwriting", node: "Any") -> "Any":
     site_call("random.sample", "sample-size", 0 <= kw_k and kw_k <= len(arg0))
 
 
+
+
+@contract("src.ir.type_utils._construct_related_types")
+def _(etype: "Any", types: "Any", get_subtypes: "Any", ignore_variance: "Any") -> "Any":
+    """the type argument of a related instantiation is drawn from the candidates that are left after the primitives have
+    been removed: that list must not be empty at the draw"""
+    use_profile("ranges")
+    local(t_args="Seq[Any]")
+    site_call("random.choice", "non-empty", truthy(arg0))
+    site_call("random.integer", "non-empty-range", arg0 <= arg1)
+    site_call("random.sample", "sample-size", 0 <= kw_k and kw_k <= len(arg0))
